@@ -480,8 +480,11 @@ func (x *explorer) mapDeletes(n *Node, st, st2 map[int]Val) {
 func (x *explorer) callLabels(n *Node, st map[int]Val) []Label {
 	var ls []Label
 	for _, c := range n.Calls {
-		r := x.deep(x.resolve(c, st, 0), st, 0)
-		ls = append(ls, Label{Kind: "call", Key: r.Key(), T: r, Node: n})
+		r0 := x.resolve(c, st, 0)
+		r := x.deep(r0, st, 0)
+		// Key: pointers to locals stay placeholders (identity of the local object);
+		// T2: the same call with the locals' current values filled in
+		ls = append(ls, Label{Kind: "call", Key: r0.Key(), T: r0, T2: r, Node: n})
 	}
 	return ls
 }
